@@ -707,9 +707,13 @@ func TestVerifC17(t *testing.T) {
 		}
 	} else {
 		r := newVRand(seed ^ 0x1717)
+		period := 8
+		if n > 200 {
+			period = 24 // each lagging join costs its 1.5 s of bounded waiting
+		}
 		for i := 0; i < n; i++ {
-			if i%8 == 7 {
-				cases = append(cases, vC17GenLag(r, 1+(i/8)%4)) // boundary stream: the lagging joiner, every amount of lag in turn
+			if i%period == period-1 {
+				cases = append(cases, vC17GenLag(r, 1+(i/period)%4)) // boundary stream: the lagging joiner, every amount of lag in turn
 			} else {
 				cases = append(cases, vC17Gen(r))
 			}
